@@ -292,7 +292,7 @@ def check_C05(ctx):
 
 def check_C12(ctx):
     import oracles
-    fs_property(ctx, "C12", "C12", ["C12_children_exact", "C12_like_implied", "C12_like_alone_refuted", "C12_remove_all_touches_exactly_the_subtree", "C12_remove_all_leaves_nothing_of_the_subtree", "C12_remove_all_missing_is_noop", "C12_rename_is_the_reference_move", "C12_rename_into_own_subtree_refused"], oracles.c12)
+    fs_property(ctx, "C12", "C12", ["C12_children_exact", "C12_like_implied", "C12_like_alone_refuted", "C12_remove_all_touches_exactly_the_subtree", "C12_remove_all_leaves_nothing_of_the_subtree", "C12_remove_all_missing_is_noop", "C12_rename_is_the_reference_move", "C12_rename_into_own_subtree_refused", "C12_rename_of_missing_name_changes_nothing", "C12_rename_onto_itself_changes_nothing"], oracles.c12)
 
 
 def check_C13(ctx):
